@@ -703,6 +703,41 @@ class NPModel:
     def cross(a, b):
         raise AnalysisError("np.cross not modelled")
 
+    @staticmethod
+    def _ew2(f, a, b):
+        if isinstance(a, (Arr, list, tuple)) or isinstance(
+                b, (Arr, list, tuple)):
+            sa = _seq(a) if isinstance(a, (Arr, list, tuple)) else None
+            sb = _seq(b) if isinstance(b, (Arr, list, tuple)) else None
+            n = len(sa if sa is not None else sb)
+            sa = sa if sa is not None else [a] * n
+            sb = sb if sb is not None else [b] * n
+            if len(sa) != len(sb):
+                raise ModelFault("ValueError", "operands could not be "
+                                 "broadcast together")
+            return Arr([f(x, y) for x, y in zip(sa, sb)])
+        return f(a, b)
+
+    @staticmethod
+    def minimum(a, b):
+        return NPModel._ew2(min, a, b)
+
+    @staticmethod
+    def maximum(a, b):
+        return NPModel._ew2(max, a, b)
+
+    @staticmethod
+    def ceil(a):
+        if isinstance(a, (Arr, list, tuple)):
+            return Arr([float(math.ceil(v)) for v in _seq(a)])
+        return float(math.ceil(a))
+
+    @staticmethod
+    def floor(a):
+        if isinstance(a, (Arr, list, tuple)):
+            return Arr([float(math.floor(v)) for v in _seq(a)])
+        return float(math.floor(a))
+
 
 class _Namespace:
     def __init__(self, label, members):
@@ -837,9 +872,11 @@ class PyBase:
     """python-side stand-in for a base class that is not interpreted;
     `methods` maps name -> callable(obj, *args, **kwargs)"""
 
-    def __init__(self, name, methods=None):
+    def __init__(self, name, methods=None, props=None):
         self.name = name
         self.methods = dict(methods or {})
+        #: names in `props` are properties: callable(obj) evaluated on read
+        self.props = set(props or ())
 
 
 def find_member(mro, name, after=None):
@@ -1164,6 +1201,8 @@ def lookup_attr(interp, obj, name, node):
 def _bind(obj, defs, owner, name):
     if isinstance(owner, PyBase):
         f = defs
+        if name in owner.props:
+            return f(obj)
         return lambda *a, **k: f(obj, *a, **k)
     fd = defs[-1]
     decos = _decorators(fd)
